@@ -6,6 +6,7 @@ import MechVerif.Driver.C03
 import MechVerif.Driver.C04
 import MechVerif.Driver.C11
 import MechVerif.Driver.C12
+import MechVerif.Driver.C05
 open MechVerif.Driver
 
 def dispatch (line : String) : String :=
@@ -18,6 +19,7 @@ def dispatch (line : String) : String :=
     | some "index" => runC03 fields obs
     | some "assign" => runC04 fields obs
     | some "concat" => runC11 fields obs
+    | some "session" => runC05 fields obs
     | some "conv" | some "reshape" | some "toset" => runC12 fields obs
     | some "crc" | some "dmg" | some "sweep" | some "rt" | some "instrs" => runC07 fields obs
     | _ => ("bad-proto", "bad-proto", "-")
